@@ -22,6 +22,7 @@ func C09(p *core.Program, r *core.Report) {
 		rets := outputReturns(p, fn)
 		typ := ""
 		var textRoots, htmlRoots []outReturn
+		var otherText []string
 		textEmpty := false
 		for _, o := range rets {
 			typ = o.typ
@@ -32,7 +33,14 @@ func C09(p *core.Program, r *core.Report) {
 				htmlRoots = append(htmlRoots, o)
 			case o.value == `""` && o.textOnly == 1:
 				textEmpty = true
+			case o.value != `""` && o.textOnly == 1:
+				otherText = append(otherText, shortVal(o.value))
 			}
+		}
+		if len(otherText) > 0 && typ != "Text" {
+			// (Text keeps its own text; its two views are compared by W1's Text obligations in C02-O1)
+			r.Add("W1", typ+".GenerateOutput: every text rendering is InnerText of the tree the HTML view serialises", p.Pos(fn.Pos()), false,
+				"text renderings built another way: "+strings.Join(otherText, " ; "))
 		}
 		key := typ + ".GenerateOutput: text and HTML views have one source"
 		switch {
